@@ -208,6 +208,11 @@ func specGenuineER6(s *icmpDriver, p *packets.FrameParser, t uint8) bool {
 
 //@ func (*icmpDriver).ReceiveProbe
 //@ safety C09 C14 C08
+// the reply handed to the engine is exactly what the matcher decided about the packet just read: every packet that parses
+// is given to the matcher (nothing is skipped), and nothing else produces a result
+//@ ensures[C01+C02+C04+C05.recv.pass]  ncalls("(*icmpDriver).handleProbeLayers") == old(ncalls("(*icmpDriver).handleProbeLayers")) + 1 ==> ret0 == lastres("(*icmpDriver).handleProbeLayers", 0) && ret1 == lastres("(*icmpDriver).handleProbeLayers", 1)
+//@ ensures[C01+C04.recv.only]          ret0 != nil ==> ncalls("(*icmpDriver).handleProbeLayers") == old(ncalls("(*icmpDriver).handleProbeLayers")) + 1
+//@ ensures[C02.recv.all]               ncalls(ReadAndParse) == old(ncalls(ReadAndParse)) + 1 && lastres(ReadAndParse, 0) == nil ==> ncalls("(*icmpDriver).handleProbeLayers") == old(ncalls("(*icmpDriver).handleProbeLayers")) + 1
 //@ requires[pre.nonnil]     s != nil && s.source != nil && s.parser != nil && s.parser.parserv4 != nil && s.parser.parserv6 != nil
 //@ requires[C10.recv.open]  selb(isOpen, ref(s.source))
 //@ requires[pre.past]       forall(k, 0, 256, s.sentProbes[k] <= now())
